@@ -103,12 +103,22 @@ def classify_path(db, body, op, at, conf):
             res["conf"].append((bi, d))
         else:
             res["calls"].append(d)
-    for a, f in sl.fields:
-        if a == "FileSystem" and f == "root":
+            # accessor of a FileWriter field (`fn dest_path(&self) -> &Path { self.dest_path }`)
+            ab = db.body(d)
+            if ab is not None and ab.crate == "s3s_fs" and len(ab.blocks) <= 4:
+                for w in flow.return_writes(ab):
+                    if "rv" in w and w["rv"]["ops"]:
+                        s2 = flow.backward(ab, w["rv"]["ops"][0], at=w["bi"])
+                        for a, f in s2.fields_full:
+                            if a.startswith("s3s_fs::") and a.endswith("::FileWriter"):
+                                res["fw"].add(f)
+    for a, f in sl.fields_full:
+        sa = a.rsplit("::", 1)[-1]
+        if a == FS and f == "root":
             res["root"] = True
-        elif a == "FileWriter":
+        elif a.startswith("s3s_fs::") and sa == "FileWriter":
             res["fw"].add(f)
-        elif a and not a[0].islower():
-            res["request"].add((a, f))
+        elif a.startswith(REQUEST_ADT_PREFIX):
+            res["request"].add((sa, f))
     res["params"] = [(l, pr) for l, pr in sl.params]
     return res
